@@ -512,16 +512,10 @@ func doReset(rsv, pl [][]byte, specs []slotSpec) {
 	for _, r := range rsv {
 		ptttype.ReservedUserIDs = append(ptttype.ReservedUserIDs, types.Cstr(append([]byte{}, r...)))
 	}
-	// a COLD load: SHM.Reset only acts under cache.IsTest (bbsenv.ResetSHM leaves the segment as it is and
-	// LoadUHash then takes the on-the-fly path, which keeps the session table and the old chains)
-	wasTest := cache.IsTest
-	cache.IsTest = true
-	cache.Shm.Reset()
-	cache.IsTest = wasTest
-	if err := cache.LoadUHash(); err != nil {
+	// a COLD load of the segment (index, money, session table): bbsenv runs with cache.IsTest set, so SHM.Reset acts
+	if err := env.ResetSHM(); err != nil {
 		panic(err)
 	}
-	cache.ReloadBCache()
 	have = true
 	P.reset(specs, f)
 }
